@@ -18,6 +18,9 @@ import diff_engine  # noqa: E402
 from gen_engine import dumps  # noqa: E402
 
 
+UNBUILDABLE = [0]      # requests dropped because /repo refused to construct them (per process)
+
+
 def gen_history(args):
     """Worker: one adaptive history.  Returns (lines, impl_outs) with a dump after every request."""
     seed, length, profile, scripted, builder = args
@@ -31,6 +34,10 @@ def gen_history(args):
         h.append(j)
         try:
             o = E.handle(j)
+        except impl_engine.BuildRefused as e:
+            h.pop()                          # never sent: neither side sees it
+            UNBUILDABLE[0] += 1
+            return {"unbuildable": str(e)}
         except Exception as e:
             import traceback
             o = {"harness_error": "%s: %s" % (type(e).__name__, e), "tb": traceback.format_exc()[-1500:]}
@@ -129,6 +136,10 @@ def obs_shape(o):
 
 def correspondence(ctx, histories, obs=diff_engine.obs_out, what="engine model vs KmipEngine"):
     """Run all histories through the Lean model and compare.  Returns list of divergences."""
+    # lines the implementation side could not even build are dropped on both sides
+    histories = [([j for j, o in zip(h, outs) if not (isinstance(o, dict) and "unbuildable" in o)],
+                  [o for o in outs if not (isinstance(o, dict) and "unbuildable" in o)]) if any(
+                      isinstance(o, dict) and "unbuildable" in o for o in outs) else (h, outs) for h, outs in histories]
     hs = [h for h, _ in histories]
     model = diff_engine.run_model_many(ctx, hs)
     divs = []
